@@ -46,6 +46,17 @@ func httpClientGoroutines() int {
 	return strings.Count(vf.AllStacks(), "net/http.(*persistConn).readLoop")
 }
 
+// pubsubGoroutines counts the goroutines that run go-libp2p-pubsub code.
+func pubsubGoroutines() int {
+	n := 0
+	for _, g := range strings.Split(vf.AllStacks(), "\n\n") {
+		if strings.Contains(g, "go-libp2p-pubsub.") {
+			n++
+		}
+	}
+	return n
+}
+
 func c15One(c *vf.Ctx, sub string, i int, r *rand.Rand, ids []Ident) {
 	httpBefore := httpClientGoroutines()
 	announced := r.Intn(2) == 0
@@ -139,7 +150,24 @@ func c15One(c *vf.Ctx, sub string, i int, r *rand.Rand, ids []Ident) {
 	if maxAsync > 0 {
 		sopts = append(sopts, dagsync.MaxAsyncConcurrency(maxAsync))
 	}
-	s, err := newSubscriber(dst, sopts...)
+	// in some cases the subscriber lives on a libp2p host and joins a gossip topic of its own: the pubsub instance it
+	// creates for that is part of what Close has to shut down (the host is the application's and stays up)
+	ownTopic := r.Intn(6) == 0
+	var s *dagsync.Subscriber
+	pubsubBefore := 0
+	if ownTopic {
+		h, err := newHost()
+		if err != nil {
+			c.Fail(sub, i, "harness-env", err.Error(), nil)
+			return
+		}
+		defer h.Close()
+		pubsubBefore = pubsubGoroutines()
+		sopts[0] = dagsync.RecvAnnounce(fmt.Sprintf("/verif/c15/%d", i))
+		s, err = dagsync.NewSubscriber(h, dst.Lsys, sopts...)
+	} else {
+		s, err = newSubscriber(dst, sopts...)
+	}
 	if err != nil {
 		c.Fail(sub, i, "harness-subscriber", err.Error(), nil)
 		return
@@ -257,6 +285,8 @@ func c15One(c *vf.Ctx, sub string, i int, r *rand.Rand, ids []Ident) {
 	// a second explicit sync of the same publisher, queued behind the running (gated) one when Close starts
 	queuedDone := make(chan struct{})
 	queuedKind := ""
+	var queuedErr error
+	queuedParked := false
 	if !announced && point != "none" && r.Intn(3) == 0 {
 		queuedKind = []string{"SyncAdChain", "SyncAdChain-given-head", "SyncEntries", "SyncOneEntry", "SyncHAMTEntries"}[r.Intn(5)]
 		go func() {
@@ -264,19 +294,38 @@ func c15One(c *vf.Ctx, sub string, i int, r *rand.Rand, ids []Ident) {
 			tl.mark("client.explicit.call", id.ID, cid.Undef)
 			switch queuedKind {
 			case "SyncEntries":
-				_ = s.SyncEntries(context.Background(), front.AddrInfo(), entChain.Head())
+				queuedErr = s.SyncEntries(context.Background(), front.AddrInfo(), entChain.Head())
 			case "SyncOneEntry":
-				_ = s.SyncOneEntry(context.Background(), front.AddrInfo(), entChain.Head())
+				queuedErr = s.SyncOneEntry(context.Background(), front.AddrInfo(), entChain.Head())
 			case "SyncHAMTEntries":
-				_ = s.SyncHAMTEntries(context.Background(), front.AddrInfo(), entChain.Head())
+				queuedErr = s.SyncHAMTEntries(context.Background(), front.AddrInfo(), entChain.Head())
 			case "SyncAdChain-given-head":
-				_, _ = s.SyncAdChain(context.Background(), front.AddrInfo(), dagsync.WithHeadAdCid(chain.Head()), dagsync.WithAdsResync(true))
+				_, queuedErr = s.SyncAdChain(context.Background(), front.AddrInfo(), dagsync.WithHeadAdCid(chain.Head()), dagsync.WithAdsResync(true))
 			default:
-				_, _ = s.SyncAdChain(context.Background(), front.AddrInfo())
+				_, queuedErr = s.SyncAdChain(context.Background(), front.AddrInfo())
 			}
 			tl.mark("client.explicit.ret", id.ID, cid.Undef)
 		}()
-		time.Sleep(time.Duration(300+r.Intn(1200)) * time.Microsecond) // it gets as far as the publisher's lock (or not: both are fine)
+		// it gets as far as the publisher's lock (or not: both are fine). Where it is seen waiting for that lock
+		// inside the library before Close is called, it has been accepted: Close waits for it, and it must be
+		// allowed to run and finish like the sync it is queued behind
+		pdl := time.Now().Add(time.Duration(300+r.Intn(1200)) * time.Microsecond)
+		if r.Intn(2) == 0 {
+			pdl = time.Now().Add(2 * time.Second)
+		}
+		for time.Now().Before(pdl) && !queuedParked {
+			for _, g := range strings.Split(vf.AllStacks(), "\n\n") {
+				if strings.Contains(strings.SplitN(g, "\n", 2)[0], "[sync.Mutex.Lock") && (strings.Contains(g, "dagsync.(*Subscriber).SyncAdChain(") || strings.Contains(g, "dagsync.(*Subscriber).syncEntries(")) {
+					queuedParked = true
+				}
+			}
+			if !queuedParked {
+				time.Sleep(100 * time.Microsecond)
+			}
+		}
+		if queuedParked {
+			c.Inc("close_with_second_explicit_sync_waiting_for_the_publishers_lock")
+		}
 		c.Inc("close_with_second_explicit_sync_queued")
 	} else {
 		close(queuedDone)
@@ -378,6 +427,9 @@ func c15One(c *vf.Ctx, sub string, i int, r *rand.Rand, ids []Ident) {
 		c15Hangs.Add(1)
 		c.Inconclusive(sub, i, "queued-explicit-sync-did-not-return", qd, wit())
 		return
+	}
+	if queuedParked && queuedErr != nil {
+		c.Fail(sub, i, "queued-explicit-sync-aborted-by-close:"+queuedKind, fmt.Sprintf("the call was waiting for the publisher's lock inside the library before Close was called, and returned: %v", queuedErr), wit())
 	}
 	tc := firstCloseRet.Load()
 	// ---- after Close returned --------------------------------------------------------------------------
@@ -549,6 +601,21 @@ func c15One(c *vf.Ctx, sub string, i int, r *rand.Rand, ids []Ident) {
 	}
 	if len(left) > 0 {
 		c.Fail(sub, i, "goroutine-left-after-close:"+vf.LibFrame(left[0]), left[0], wit())
+	}
+	// ... including the pubsub instance that the subscriber created on the application's host
+	if ownTopic {
+		after := 0
+		for try := 0; try < 400; try++ {
+			if after = pubsubGoroutines(); after <= pubsubBefore {
+				break
+			}
+			time.Sleep(5 * time.Millisecond)
+		}
+		if after > pubsubBefore {
+			c.Fail(sub, i, "pubsub-goroutines-left-after-close", fmt.Sprintf("%d goroutines of the gossip pubsub before the subscriber was created on the host, %d after Close returned (the host is still up)", pubsubBefore, after), wit())
+		} else {
+			c.Inc("subscribers_with_their_own_gossip_topic_closed")
+		}
 	}
 	// ... including those that net/http runs for the connections the subscriber's syncs opened and left idle
 	httpAfter := 0
